@@ -205,4 +205,81 @@ theorem ltIndex_agrees [DecidableEq κ] (c : Cfg κ) (t : Table κ ν) (m : AMap
         sl.val = (match m.lookup k with | some old => old | none => dflt) :=
   C02.ltInsert_refines c t m k dflt h hr hl
 
+
+/-! ### iteration order after `erase(it)` (session 5) -/
+
+/-- erasing through an iterator removes exactly that position from the iteration order and keeps the relative
+order of all the others: an `it = erase(it)` loop therefore visits every element exactly once -/
+theorem traverse_after_erase (S : Nat) (st : Store κ ν) (hS : 0 < S) (hsz : st.cells.size = 2 ^ st.hp * S)
+    (b s : Nat) (hs : s < S) :
+    (st.set S b s none).traverse S = (st.traverse S).filter (fun p => decide (p ≠ (b, s))) := by
+  have hsz' : (st.set S b s none).cells.size = 2 ^ (st.set S b s none).hp * S := by
+    simp [Store.set, hsz]
+  rw [Store.traverse_eq S _ hsz', Store.traverse_eq S st hsz, List.filter_map, List.filter_filter]
+  have hhp : (st.set S b s none).hp = st.hp := rfl
+  rw [hhp]
+  congr 1
+  apply List.filter_congr
+  intro i hi
+  have hi' : i < 2 ^ st.hp * S := List.mem_range.mp hi
+  simp only [Store.occI, Store.set, Function.comp, posOf]
+  by_cases e : i = b * S + s
+  · subst e
+    have h1 : (b * S + s) / S = b := by
+      rw [Nat.mul_comm, Nat.mul_add_div hS, Nat.div_eq_of_lt hs]; omega
+    have h2 : (b * S + s) % S = s := by
+      rw [Nat.mul_comm, Nat.mul_add_mod, Nat.mod_eq_of_lt hs]
+    simp [Array.getD_eq_getD_getElem?, h1, h2]
+  · have hne : (i / S, i % S) ≠ (b, s) := by
+      intro hh
+      have h1 : i / S = b := congrArg Prod.fst hh
+      have h2 : i % S = s := congrArg Prod.snd hh
+      apply e
+      have := Nat.div_add_mod i S
+      rw [h1, h2] at this
+      rw [← this, Nat.mul_comm]
+    simp [Array.getD_eq_getD_getElem?, Array.getElem?_setIfInBounds_ne (Ne.symm e), hne]
+
+/-- the same for the table operation: after `erase(it)` the iteration visits exactly the former sequence without `it`,
+in the same relative order, and the returned iterator is a member of it or `end()` (`ltEraseAt_spec`) -/
+theorem ltEraseAt_iteration [DecidableEq κ] (c : Cfg κ) (t : Table κ ν) (p : Pos) (sl : Slot κ ν)
+    (h : Inv c t) (hget : t.cur.get c.S p.1 p.2 = some sl) :
+    (t.ltEraseAt c p).1.cur.traverse c.S = (t.cur.traverse c.S).filter (fun q => decide (q ≠ p)) := by
+  obtain ⟨b, s⟩ := p
+  have ⟨hs, _⟩ := Store.get_some_lt hget
+  exact traverse_after_erase c.S t.cur h.S_pos h.cur_wf.size b s hs
+
+/-- removing the one occurrence of `p` from a duplicate-free list shortens it by one -/
+private theorem len_filter_ne (l : List Pos) (p : Pos) (hm : p ∈ l) (hnd : l.Nodup) :
+    (l.filter (fun q => decide (q ≠ p))).length + 1 = l.length := by
+  induction l with
+  | nil => cases hm
+  | cons a l ih =>
+    rw [List.nodup_cons] at hnd
+    by_cases e : a = p
+    · subst e
+      have hself : l.filter (fun q => decide (q ≠ a)) = l := by
+        apply List.filter_eq_self.mpr
+        intro q hq
+        exact decide_eq_true (fun hh => hnd.1 (hh ▸ hq))
+      rw [show List.filter (fun q => decide (q ≠ a)) (a :: l) = List.filter (fun q => decide (q ≠ a)) l by simp [List.filter_cons],
+        hself, List.length_cons]
+    · have hm2 : p ∈ l := by
+        cases hm with
+        | head => exact absurd rfl e
+        | tail _ hm => exact hm
+      have := ih hm2 hnd.2
+      simp [List.filter_cons, e] at this ⊢
+      omega
+
+/-- consequence: an erase shortens the iteration by exactly one -/
+theorem ltEraseAt_iteration_length [DecidableEq κ] (c : Cfg κ) (t : Table κ ν) (p : Pos) (sl : Slot κ ν)
+    (h : Inv c t) (hget : t.cur.get c.S p.1 p.2 = some sl) :
+    ((t.ltEraseAt c p).1.cur.traverse c.S).length + 1 = (t.cur.traverse c.S).length := by
+  rw [ltEraseAt_iteration c t p sl h hget]
+  have hmem : p ∈ t.cur.traverse c.S :=
+    (Store.mem_traverse c.S t.cur h.S_pos h.cur_wf.size p.1 p.2).mpr ⟨sl, hget⟩
+  have hnd : (t.cur.traverse c.S).Nodup := Store.traverse_nodup' c.S t.cur h.cur_wf.size
+  exact len_filter_ne _ p hmem hnd
+
 end Cuckoo.Props.C09
